@@ -665,6 +665,18 @@ func registerBuiltinSpecs(e *Engine) {
 		}
 		return Val{smt.App(smt.Bool, "elemOf", Box(x.T), sl.T), types.Typ[types.Bool]}, nil
 	}
+	// distinct(s): the elements of slice s are pairwise different values
+	e.Specs["distinct"] = func(e *Engine, env *SpecEnv, args []spec.Expr) (Val, error) {
+		if len(args) != 1 {
+			return Val{}, fmt.Errorf("spec: distinct(s)")
+		}
+		sl, err := e.evalSpec(env, args[0])
+		if err != nil {
+			return Val{}, err
+		}
+		e.DeclDistinct()
+		return Val{smt.App(smt.Bool, "distinct_elems", sl.T), types.Typ[types.Bool]}, nil
+	}
 	e.Specs["visited"] = func(e *Engine, env *SpecEnv, args []spec.Expr) (Val, error) {
 		if env.Visited == nil {
 			return Val{}, fmt.Errorf("spec: visited() outside a map-range invariant")
@@ -787,4 +799,18 @@ func registerBuiltinSpecs(e *Engine) {
 		}
 		return Val{smt.Ite(c.T, a.T, b.T), a.Ty}, nil
 	}
+}
+
+// DeclDistinct declares distinct_elems(s) <==> forall a < b < len(s) :: s[a] != s[b].
+func (e *Engine) DeclDistinct() {
+	if e.Decls.HasFun("distinct_elems") {
+		return
+	}
+	e.Decls.Fun("distinct_elems", []smt.Sort{smt.V}, smt.Bool)
+	ss := smt.T{S: "s", Sort: smt.V}
+	a, b := smt.T{S: "a?e", Sort: smt.Int}, smt.T{S: "b?e", Sort: smt.Int}
+	d := smt.App(smt.Bool, "distinct_elems", ss)
+	def := smt.Forall([]smt.Bound{{Name: a.S, Sort: smt.Int}, {Name: b.S, Sort: smt.Int}},
+		smt.Implies(smt.And(smt.Le(smt.IntLit(0), a), smt.Lt(a, b), smt.Lt(b, smt.App(smt.Int, "s_len", ss))), smt.Neq(smt.App(smt.V, "s_at", ss, a), smt.App(smt.V, "s_at", ss, b))))
+	e.Axioms = append(e.Axioms, smt.Forall([]smt.Bound{{Name: "s", Sort: smt.V}}, smt.Eq(d, def), d))
 }
